@@ -106,6 +106,7 @@ def cases(draw, backend):
     tree = draw(st.one_of(st.sampled_from(["mytree"]), texts))
     ncols = draw(st.integers(1, 5))
     cols = []  # (expr ast, literal, position)
+    col_kinds = {}  # index of a bare-literal column -> the C++ column type its kind requires
     attrs = []
     names = []
     for i in range(ncols):
@@ -113,10 +114,24 @@ def cases(draw, backend):
         if pos in ("col", "arith", "cmp", "arg"):
             kind = draw(st.sampled_from(["int", "float", "float", "bool"]))
             v = draw(ints) if kind == "int" else (draw(floats) if kind == "float" else draw(st.booleans()))
+            prev = [c_[1] for c_ in cols if isinstance(c_[1], (int, float)) and c_[2] != "str-arg"]
+            if prev and draw(st.integers(0, 2)) == 0:
+                # the same VALUE in another KIND as an earlier literal of this query (2 / 2.0, 1 / True / 1.0, 0 / False / 0.0)
+                p0 = draw(st.sampled_from(prev))
+                try:
+                    if kind == "int" and float(p0) == int(p0) and abs(p0) < 2**31:
+                        v = int(p0)
+                    elif kind == "float" and math.isfinite(float(p0)):
+                        v = float(p0)
+                    elif kind == "bool" and p0 in (0, 1):
+                        v = bool(p0)
+                except (OverflowError, ValueError):
+                    pass
             neg_form = isinstance(v, (int, float)) and not isinstance(v, bool) and v < 0 and v != -(2**31) and draw(st.booleans())
             lit = ast.UnaryOp(op=ast.USub(), operand=C(-v)) if neg_form else C(v)
             if pos == "col":
                 e = lit
+                col_kinds[len(cols)] = {"int": "int", "float": "double", "bool": "bool"}[kind]
             elif pos == "arith":
                 e = subst(parse(f"(j.{intm}() * 0 + L)" if kind != "float" else "(j.pt() * 0 + L)"), {"L": lit})
             elif pos == "cmp":
@@ -154,7 +169,8 @@ def cases(draw, backend):
     q = ast.fix_missing_locations(q)
     evs = draw(events_strategy(sch, [(acc, bank)], n_min=1, n_max=2, attr_names=[a for a in attrs if representable(a)], null_links=False))
     lits = [bank, tree] + [c[1] for c in cols] + names
-    return {"backend": backend, "ast": q, "lits": lits, "positions": ["bank", "tree"] + [c[2] for c in cols] + ["colname"] * len(names), "wire": wire, "evs": evs,
+    col_kinds = {i: k for i, k in col_kinds.items() if i < len(cols)}
+    return {"col_kinds": col_kinds, "backend": backend, "ast": q, "lits": lits, "positions": ["bank", "tree"] + [c[2] for c in cols] + ["colname"] * len(names), "wire": wire, "evs": evs,
             "bank": bank, "tree": tree, "names": names, "acc": acc}
 
 
@@ -175,7 +191,7 @@ def check(c):
     q = c["ast"]
     text = ast.unparse(q)
     rep = {"backend": backend, "query": text, "wire": c["wire"], "events": [e.to_json() for e in evs], "bank": c["bank"], "tree": c["tree"], "names": c["names"],
-           "acc": c["acc"], "lit_reprs": [v.hex() if isinstance(v, float) else repr(v) for v in c["lits"]]}
+           "acc": c["acc"], "col_kinds": c.get("col_kinds", {}), "lit_reprs": [v.hex() if isinstance(v, float) else repr(v) for v in c["lits"]]}
     all_ok = all(representable(v) for v in c["lits"])
     r = enginea.execute(to_wire(q, c["wire"]), backend, evs, cxx.std_model(backend))
     if r.stage == "rejected":
@@ -199,6 +215,10 @@ def check(c):
     got = [b["name"] for b in out["book"]]
     if got != c["names"]:
         raise Violation("column-name", f"branches booked as {got!r}, the query says {c['names']!r}", rep)
+    for i, want in (c.get("col_kinds") or {}).items():
+        i = int(i)
+        if i < len(out["book"]) and out["book"][i]["type"] != want:
+            raise Violation("literal-kind", f"column {i} holds the bare literal {c['lits'][2 + i]!r} and must be a {want} column; it was booked as {out['book'][i]['type']}", rep)
     try:
         ref = linq.evaluate(q, sch, evs)
     except Exception as ex:
@@ -274,7 +294,7 @@ def replay(case):
         except Exception:
             lits.append(s)
     c = {"backend": case["backend"], "ast": q, "wire": case["wire"], "evs": [Event.from_json(j) for j in case["events"]], "bank": case["bank"], "tree": case["tree"],
-         "names": case["names"], "acc": case["acc"], "lits": lits}
+         "names": case["names"], "acc": case["acc"], "lits": lits, "col_kinds": case.get("col_kinds", {})}
     try:
         check(c)
     except Violation as v:
